@@ -69,7 +69,12 @@ class Opaque:
     def __repr__(self):
         return f"Opaque<{self.sort}>({self.z})"
 
-    __hash__ = None
+    # identity hash (see Sym): opaque keys may live in native dicts; lookups always go through semantic equality forks
+    def __hash__(self):
+        return id(self)
+
+    def __eq__(self, other):
+        return self is other
 
 
 class SymSeq:
